@@ -47,6 +47,11 @@ def make_case(seed, shard, i):
     rows = lang.data_rows(r, header_prob=0.0 if headerless else 0.85)
     if not any(len(x) for x in rows):
         rows.append(["1", "2", "x", "y"])
+    if r.random() < 0.35:
+        # a repeated record: the same cells on two lines are still two lines
+        k = r.randrange(0 if headerless else 1, len(rows)) if len(rows) > (0 if headerless else 1) else None
+        if k is not None and rows[k]:
+            rows.insert(r.randint(k + 1, len(rows)), list(rows[k]))
     policy = r.choice([["collect", "print"], ["collect", "print"], ["collect", "stop", "fail", "print"], ["collect", "fail"]])
     dialect = None
     if r.random() < 0.2:
